@@ -32,21 +32,21 @@ CHECKS = {
    note="Needles >= 12 bytes (chance hit < 2^-64)."),
  "C09": dict(cat=E, ref="§5 C09", tech=SSE + "of input lengths per surface and of argument vectors (<= 3 tokens over 30) + " + PBT + "+ libFuzzer targets (thorough); oracle: every call returns / exit status in {0,1} with Error: line; counting-allocator resource relation for hostile headers",
    text="All lengths 0..600 (files), 0..300 + 65535/65536/70000 (handshake), 0..200 (AEAD), 0..130 (key strings) over several fills; mutation programs; 55 862 argument vectors; hostile length fields must not raise heap, largest allocation, read-ahead or KDF count above the honest case.",
-   note="Caller preconditions (key/nonce sizes) respected; aborts are detected as abnormal process end by the check script; hangs reported as inconclusive."),
+   note="Caller preconditions (key/nonce sizes) respected; an abort kills kverif and is triaged from the per-worker crash trace (violation with a replay file); a case that does not return within the hang limit is a violation with a replay file."),
  "C10": dict(cat=F, ref="§5 C10", tech=SSE + "of every fault position (side x k-th call x 8 kinds) for small cases + " + PBT + "over schedules and faults; oracle: schedule independence, fired fault => error of the failing side, sink is prefix of fault-free sink",
    text="For 24 base cases every read/write/flush call index is failed with every kind (incl. Interrupted and zero-length write); generated cases cover 64 KiB chunks and password mode.",
    note="Sources/sinks are conforming (failed call transfers nothing)."),
  "C11": dict(cat=E, ref="§5 C11", tech=PBT + "over sizes (to 64 MiB quick / 2 GiB + one 5 GiB thorough) with a counting global allocator and inline lag counters; oracle: peak heap independent of size, lag <= 2 chunks, byte-exact streaming round trip",
-   text="Encryption piped into decryption through a bounded ring on two threads; thread-local peak heap compared with the 256 KiB run of the same build; chunk j must be written before more than two further chunks are consumed.",
+   text="Encryption piped into decryption through a bounded ring on two threads; thread-local peak heap compared with the 256 KiB run of the same build; chunk j (= j-th read that returned data, incl. 512-byte pipe-like reads) must be written before more than two further chunks are consumed; data after the final chunk must not cost memory; process level: peak RSS of the real binary on sparse 64 MiB / 1 GiB files (also with aliased in/out paths) and its read-ahead on a regular file while stdout is blocked (procfs).",
    note="Bounds are relative to the same build (+128 KiB) with generous absolute caps, so a benign extra buffer is not an alarm."),
  "C12": dict(cat=E, ref="§5 C12", tech=PBT + "over logical requests x keyring compositions x wiring variants of the real binary + " + SSE + "of all 64 wirings; oracle: exit status = by-construction verdict, content, sender line, metamorphic agreement of wirings",
-   text="Runs the binary built from the working tree (CLI sources + working-tree library) in private directories with stdin/stdout/env/option-spelling/alias/order variants, damaged files, absent senders, /dev/full and closed-pipe sinks.",
+   text="Runs the binary built from the working tree (CLI sources + working-tree library) in private directories with stdin/stdout/env/option-spelling/alias/order variants, damaged files, absent / look-alike senders, empty plaintexts, /dev/full and closed-pipe sinks, a longer file already at the -o path, and an unrelated KESTREL_KEYRING while -k is given.",
    note="Linux, no terminal; each key operation costs one scrypt, so hundreds of invocations quick."),
  "C13": dict(cat=F, ref="§5 C13", tech=SSE + "of command x failure cause x prior state of the output path (generated instances) on the real binary; library companion by " + PBT + "; oracle: path unchanged (bytes, inode) / exactly the authenticated prefix",
    text="5 commands x every applicable listed cause (~125) x {absent, present} x instances; later-chunk failures must leave exactly the first j chunks.",
    note="Linux; failure of the output device itself is not a listed cause."),
  "C14": dict(cat=E, ref="§5 C14", tech=PBT + "over histories of `key generate -o F` on generated initial files; oracle: byte-prefix preservation, parse, presence, unlock, usability",
-   text="After every generation the old bytes are a prefix, the file parses, every name is present, the new key unlocks with its password and matches its PublicKey line; generated keys then encrypt/decrypt.",
+   text="After every generation the old bytes are a prefix, the file parses, every name is present, the new key unlocks with its password and matches its PublicKey line; generated keys then encrypt/decrypt; initial files up to 4 MiB are verified through the tool itself; a generation that cannot append (file-size limit) must fail and lose nothing; a stale KESTREL_NEW_PASSWORD must not matter.",
    note="Names/passwords via stdin/env; found and fixed F3."),
  "C15": dict(cat=E, ref="§5 C15", tech=PBT + "differential against the specification's lock + " + SSE + "of blob bit flips and malformed strings; oracle: string equality, unlock∘lock = id, every flip / other password rejected",
    text="lock == documented format; all 32 version-bit flips and sampled (thorough: all 640) salt/ciphertext/tag flips rejected; strings of every length 0..130 over several alphabets never panic.",
@@ -64,7 +64,7 @@ CHECKS = {
    text="AEAD on the full 131x41 grid with bit-flip sweeps, X25519 on all small-order/non-canonical encodings with clamp noise, HKDF/HMAC/SHA-256 over length ranges.",
    note="kspec is the RFC reference (self-tested, OpenSSL-audited)."),
  "C20": dict(cat=E, ref="§5 C20", tech=PBT + "over generated clone/drop/move programs with allocator-side inspection at dealloc and read-back of inline storage",
-   text="Every container value (from bytes, generated, cloned, boxed) must have zeroed key bytes in the storage it owns at the moment that storage is released.",
+   text="Every container value (from bytes, generated, cloned, clone_from target, boxed, boxed behind other bytes, inline at every address residue mod 8, dropped normally or while unwinding) must have zeroed key bytes in the storage it owns at the moment that storage is released.",
    note="Only storage owned at drop time; not copies left by moves."),
 }
 NA_REASON = {}
